@@ -12,7 +12,7 @@ import (
 )
 
 func init() {
-	register(&Rule{ID: "E-SCOPE-THREAD", Props: []string{"C19", "C02", "C01"}, Floor: 54,
+	register(&Rule{ID: "E-SCOPE-THREAD", Props: []string{"C19", "C02", "C01", "C18", "C17"}, Floor: 54,
 		Doc: "every argument of type *variableScope in the evaluator is the enclosing function's own scope parameter, except the single child scope created by the let case, which is passed only to the evaluation of the let body; bindings are evaluated with the outer scope and the current node; Evaluate starts with the nil scope; and the current-node argument of the let evaluations is the enclosing current node",
 		Run: ruleEScopeThread})
 	register(&Rule{ID: "E-SCOPE-CHAIN", Props: []string{"C19"}, Floor: 1,
@@ -110,6 +110,25 @@ func ruleEScopeThread(p *Program, r *Reporter) {
 	}
 	if entryNil == 0 {
 		r.Bad(token.NoPos, "entry scope", "no top-level call of the dispatcher with the nil scope found")
+	}
+	// the current value of a recursive evaluation is never the document root (only `$` yields the root, by returning it)
+	for _, fn := range p.ReachFuncs(p.Eval) {
+		if fn.Signature.Recv() == nil {
+			continue
+		}
+		for _, b := range fn.Blocks {
+			for _, in := range b.Instrs {
+				c, ok := in.(*ssa.Call)
+				if !ok || calleeOf(&c.Call) != d.evalFn || d.curIdx >= len(c.Call.Args) {
+					continue
+				}
+				if ld, ok := c.Call.Args[d.curIdx].(*ssa.UnOp); ok && ld.Op == token.MUL {
+					if fa, ok := ld.X.(*ssa.FieldAddr); ok && fa.X == ssa.Value(fn.Params[0]) {
+						r.Bad(instrPos(c), p.FuncName(fn)+" evaluates against the root", "a child is evaluated with a field of the evaluator (the document root) as its current value: the result no longer depends on where the expression stands")
+					}
+				}
+			}
+		}
 	}
 }
 
